@@ -28,7 +28,7 @@ NATS_MAX = 1024 * 1024
 def gen_nats_reqs(rng, n, profiles, max_callers=6, steps=(25, 60)):
     """Schedules for the NATS mode of vh_reg. Per caller: len(data) (4 = the empty frame Request answers with (nil, nil);
     > 1 MiB = oversize, detected AFTER Register; exactly 1 MiB = largest accepted), an FContext shared with an earlier
-    caller (same op id: Register fails while the other is in flight), a timeout; `reserve` callers are started only after
+    caller (same op id: Register fails while the other is in flight), a malformed _opid header (Register refuses it), a timeout; `reserve` callers are started only after
     the transport has been closed (NOT_OPEN). Profiles: mixed | wedge | timeouts | status (many 503 and discarded
     messages) | noresp (nobody subscribes to the request subject: the server sends the 503s) | puberr (server with a
     256 KiB max_payload: PublishRequest fails for 300 KB requests)."""
@@ -36,7 +36,7 @@ def gen_nats_reqs(rng, n, profiles, max_callers=6, steps=(25, 60)):
     for i in range(n):
         k = rng.randrange(1, max_callers + 1)
         profile = profiles[i % len(profiles)]
-        touts, sizes, share = [], [], []
+        touts, sizes, share, badop = [], [], [], []
         for j in range(k):
             if profile == "timeouts":
                 touts.append(rng.choice([15, 25, 40, 0]))
@@ -54,9 +54,10 @@ def gen_nats_reqs(rng, n, profiles, max_callers=6, steps=(25, 60)):
             else:
                 sizes.append(rng.choice([8, 8, 9, 64, 5000]))
             share.append(rng.randrange(0, j) if j > 0 and rng.random() < 0.22 else -1)
+            badop.append(1 if share[-1] < 0 and rng.random() < 0.07 else 0)
         reserve = rng.choice([0, 0, 1, 2]) if k > 1 else 0
         reqs.append({"transport": "nats", "seed": rng.randrange(1, 2 ** 31), "callers": k, "steps": rng.randrange(*steps),
-                     "timeouts_ms": touts, "sizes": sizes, "share": share, "reserve": min(reserve, k - 1), "profile": profile})
+                     "timeouts_ms": touts, "sizes": sizes, "share": share, "badop": badop, "reserve": min(reserve, k - 1), "profile": profile})
     return reqs
 
 
@@ -101,13 +102,15 @@ def oracle_nats(q, r):
             seen503.add(ops[a])
         elif k == 1:
             if b == 0:
+                if ops[a] == "-1":
+                    return "caller %d was registered although its FContext has a malformed op id" % a
                 if any(ops[j] == ops[a] for j in inflight):
                     return "caller %d registered op id %s while another request with it is in flight" % (a, ops[a])
                 if dks[a] == 1:
                     return "caller %d sent an empty frame and was registered" % a
                 inflight.add(a)
             elif b == 1:
-                if not any(ops[j] == ops[a] for j in inflight):
+                if ops[a] != "-1" and not any(ops[j] == ops[a] for j in inflight):
                     return "caller %d got a Register error, no request with op id %s is in flight" % (a, ops[a])
             elif b == 2:
                 if dks[a] != 1:
